@@ -28,6 +28,9 @@ def iterindices(case, d):
         if npt is None or v is None or v < 0 or v > np.iinfo(npt).max:
             return v
         return np.dtype(npt).type(v)
+    # the include_remainder flag as a truthy / falsy object that is not the bool itself
+    ft = case.get('flagtype')
+    cflag = (lambda f: np.bool_(f)) if ft == 'np' else (lambda f: int(f)) if ft == 'int' else (lambda f: f)
     for (c, s, st, en, flag) in case['args']:
         def f():
             import itertools
@@ -35,7 +38,7 @@ def iterindices(case, d):
                   itertools.islice(a.iterindices(conv(c) if case.get('npall') else c,
                                                  stepsize=conv(s) if case.get('npall') else s,
                                                  startindex=conv(st), endindex=conv(en),
-                                                 include_remainder=flag), CAP + 1)]
+                                                 include_remainder=cflag(flag)), CAP + 1)]
             if len(fr) > CAP:
                 raise RuntimeError('more than %d frames: the iterator does not end' % CAP)
             return fr
@@ -78,6 +81,23 @@ def iterchunks(case, d):
                         cur[x2:y2] = -(k + 1)
                 g.close()
                 a[:] = ref
+            # the SAME call again on the same object after the length changed (append 2, then back):
+            # the frames and chunks are those of the array as it is then
+            if a.accessmode == 'r+' and en is None:
+                a.append(np.array([n, n + 1], dtype='int32'))
+                ref2 = np.arange(n + 2, dtype='int32')
+                fr2 = [[int(x), int(y)] for x, y in
+                       itertools.islice(a.iterindices(c, stepsize=s, startindex=st, endindex=en,
+                                                      include_remainder=flag), CAP)]
+                ch2 = list(itertools.islice(a.iterchunks(c, stepsize=s, startindex=st, endindex=en,
+                                                         include_remainder=flag), CAP))
+                if len(ch2) != len(fr2) or not all(bool(np.array_equal(ch, ref2[x:y])) for ch, (x, y) in zip(ch2, fr2)):
+                    same = False
+                darr.truncate_array(a, n)
+                ch3 = list(itertools.islice(a.iterchunks(c, stepsize=s, startindex=st, endindex=en,
+                                                         include_remainder=flag), CAP))
+                if len(ch3) != len(chunks) or not all(bool(np.array_equal(x, y)) for x, y in zip(ch3, chunks)):
+                    same = False
             return dict(frames=frames, same=same, detached=detached, cat=cat,
                         closed=a._memmap is None and a._valuesfd is None)
         out.append(guarded(f)[:2])
